@@ -21,6 +21,7 @@ CONSTANTS
   Acts,       \* set of enabled action names
   Acts2,      \* action names enabled after the first non-source action ({} = same as Acts): directed corpora,
               \* e.g. "anything, then an operation the optimizer pushes down"
+  Acts3,      \* action names enabled after the second non-source action ({} = same as the second level)
   MaxLen,     \* maximal number of non-source actions
   SrcPreset,  \* which source shapes / kinds Init offers
   Sim,        \* TRUE: parameters are picked with RandomElement (use with -simulate)
@@ -115,7 +116,8 @@ Start ==
 NActs == Cardinality({j \in 1..Len(prog) : prog[j].a # "Source"})
 NumHandles == Len(env)
 CanStep == env # <<>> /\ NActs < MaxLen
-Allowed(a) == IF NActs = 0 \/ Acts2 = {} THEN a \in Acts ELSE a \in Acts2
+Level2 == IF Acts2 = {} THEN Acts ELSE Acts2
+Allowed(a) == IF NActs = 0 THEN a \in Acts ELSE IF NActs = 1 \/ Acts3 = {} THEN a \in Level2 ELSE a \in Acts3
 
 Operands(act) ==
   (IF "x" \in DOMAIN act THEN {act.x} ELSE {}) \cup (IF "y" \in DOMAIN act THEN {act.y} ELSE {})
@@ -401,7 +403,7 @@ TopKAct ==
 (* what normalizing the specification gives (validated from the recorded   *)
 (* layouts by Planner.RechunkSpecVerdict, not predicted here).             *)
 (***************************************************************************)
-AxisSpecs(n) == {[k |-> "int", v |-> v] : v \in L(1..(n + 1), {1, 2, Max2(n - 1, 1), n + 1})}
+AxisSpecs(n) == {[k |-> "int", v |-> v] : v \in L(1..(n + 1), {2, n + 1})}
                 \cup {[k |-> "full"], [k |-> "keep"], [k |-> "auto"]}
 RechunkSpecAct ==
   /\ Allowed("RechunkSpec") /\ CanStep
